@@ -988,7 +988,21 @@ def _min(I, t, other=None, keepdim=False, dim=None):
         if all(isinstance(x, int) and x == 1 for x in t.shape):  # one element: the minimum is that element
             e1 = t.elem(*([0] * len(t.shape)))
             return ST((), lambda: e1, t.dtype)
-        raise Unsupported("min over all elements of a symbolic-shape tensor")
+        # min over all elements: a fresh scalar with the assumed contract `a lower bound of every entry, attained at some entry`
+        # (instance builders in ghost['mins_all']); entries are plain integers / reals here
+        te0 = t.elem
+        dims0 = [to_z3(d_) for d_ in t.shape]
+        mn0 = I.ex.fresh("int" if t.dtype == "long" else "real", "min")
+        ws0 = [I.ex.fresh("int", "argmin") for _ in dims0]
+        inr0 = lambda idx: z3.And([z3.And(to_z3(i) >= 0, to_z3(i) < d_) for i, d_ in zip(idx, dims0)])
+        lb0 = lambda *idx: z3.Implies(inr0(idx), mn0 <= to_z3(te0(*idx)))
+        iv0 = [z3.Int("i%d_min" % j) for j in range(len(dims0))]
+        I.ex.oblige("min.tensor_not_empty", z3.And([d_ >= 1 for d_ in dims0]))
+        I.ex.assume(z3.ForAll(iv0, lb0(*iv0)))
+        att0 = z3.And(inr0(ws0), to_z3(te0(*ws0)) == mn0)
+        I.ex.assume(att0)
+        I.ex.ghost.setdefault("mins_all", []).append({"min": mn0, "argmin": ws0, "lb": lb0, "att": att0})
+        return ST((), lambda: mn0, t.dtype)
     d = (other if dim is None else dim) % len(t.shape)
     rank = len(t.shape)
     out_rank = rank - 1
@@ -1302,6 +1316,8 @@ def _masked_select(I, t, mask):
     te = t.elem
     out = ST((rec["total"],), lambda k: te(*pos(k)), t.dtype)
     out.compaction = rec
+    for hook in I.ex.ghost.get("select_hooks", []):  # a sidecar may prove facts about this counting right here (before the result is used)
+        hook(rec, out)
     return out
 
 
